@@ -33,7 +33,7 @@ CONSTANTS Users,               \* user names (strings)
           MaxSteps,
           Ops,                 \* names of the actions enabled in this configuration
           SessChecksDisabled,  \* TRUE = as coded since fix 64083be (the session paths refuse a disabled owner); FALSE = before it
-          RefreshUpserts,      \* TRUE = as coded: the TTL refresh of AuthenticateCookie is a blind Set (re-creates a deleted document)
+          RefreshUpserts,      \* FALSE = as coded since fix b081bb5 (the TTL refresh is a CAS write); TRUE = before it: blind Set
           InFlightOps          \* administrative actions allowed while a presentation is in flight ({} in the families)
 
 NoUser == [exists |-> FALSE, disabled |-> FALSE, hpw |-> "", epoch |-> 0]
@@ -197,14 +197,21 @@ ImplPGetS(q, s, kind) ==                \* datastore.Get(session)
           /\ loc' = [loc EXCEPT ![q] = [NoLoc EXCEPT !.s = s, !.kind = kind]]
           /\ res' = Result(kind, "", "", s, q, FALSE, "")
   /\ UNCHANGED <<user, sess, cache>>
-ImplPSet(q) ==                          \* the refresh: datastore.Set(session) with a new expiration - no CAS, no existence check
-  LET L == loc[q] IN
-  /\ pc' = [pc EXCEPT ![q] = "gotS"]
-  /\ sess' = IF RefreshUpserts \/ sess[L.s].exists
-             THEN [sess EXCEPT ![L.s] = [exists |-> TRUE, user |-> L.su, epoch |-> L.se, oneTime |-> L.so, aged |-> FALSE]]
-             ELSE sess
-  /\ res' = NoRes
-  /\ UNCHANGED <<user, cache, loc>>
+ImplPSet(q) ==                          \* the refresh write of the session document with a new expiration
+  LET L == loc[q]
+      \* since fix b081bb5 a compare-and-swap against the document that was read.  Between the read and this write only a
+      \* refresh by another presenter (aged becomes FALSE) or a deletion can have changed the document.
+      same == sess[L.s].exists /\ sess[L.s].aged /\ sess[L.s].user = L.su /\ sess[L.s].epoch = L.se
+      written == [sess EXCEPT ![L.s] = [exists |-> TRUE, user |-> L.su, epoch |-> L.se, oneTime |-> L.so, aged |-> FALSE]] IN
+  IF RefreshUpserts                     \* before the fix: blind Set - re-creates a deleted document
+  THEN /\ pc' = [pc EXCEPT ![q] = "gotS"] /\ sess' = written /\ res' = NoRes /\ UNCHANGED <<user, cache, loc>>
+  ELSE IF same                          \* CAS succeeds
+  THEN /\ pc' = [pc EXCEPT ![q] = "gotS"] /\ sess' = written /\ res' = NoRes /\ UNCHANGED <<user, cache, loc>>
+  ELSE IF ~sess[L.s].exists             \* document gone: 401 "Session Invalid", nothing is written
+  THEN /\ pc' = [pc EXCEPT ![q] = "done"] /\ loc' = [loc EXCEPT ![q] = Fin(L)] /\ res' = Result(L.kind, "", "", L.s, q, FALSE, "")
+       /\ UNCHANGED <<user, sess, cache>>
+  ELSE                                  \* CAS mismatch (refreshed concurrently): the refresh is skipped, the presentation goes on
+       /\ pc' = [pc EXCEPT ![q] = "gotS"] /\ res' = NoRes /\ UNCHANGED <<user, sess, cache, loc>>
 ImplPGetU(q) ==                         \* GetUser = datastore.Update(user doc, cancel) ; uuid comparison
   LET L == loc[q] IN
   /\ IF ~UserOk(L.su, L.se) THEN pc' = [pc EXCEPT ![q] = "done"] /\ loc' = [loc EXCEPT ![q] = Fin(L)] /\ res' = Result(L.kind, "", "", L.s, q, FALSE, "")
